@@ -150,6 +150,69 @@ section (0) {
 """
 
 
+BD_KEYWRAP = """
+options {
+    flags = 0x8;
+    buildNumber = 0x1;
+    productVersion = "1.00.00";
+    componentVersion = "1.00.00";
+    secureBinaryVersion = "2.1";
+}
+sources {
+}
+keyblob (0) {
+    (
+        start = 0x08001000,
+        end = 0x080013ff,
+        key = "000102030405060708090A0B0C0D0E0F",
+        counter = "0123456789ABCDEF",
+        byteSwap = false
+    )
+}
+section (0) {
+    load 0xc0000001 > 0x10C000;
+    keywrap (0) {
+        load {{0102030405060708090a0b0c0d0e0f00}} > 0x08000000;
+    }
+}
+"""
+
+
+def op_sb2_keywrap(o: dict) -> dict:
+    """SB2.1 from a BD file with a keywrap statement: the wrapped OTFAD key blob carries a filler SPSDK invents, so two
+    builds from the same file (same key, counter and KEK) must not put the same wrapped blob into the file."""
+    from spsdk.sbfile.sb2.commands import CmdLoad
+    from spsdk.sbfile.sb2.images import BootImageV21
+
+    ws = os.path.join(WORKDIR, "sb2kw" + FORK_TAG)
+    os.makedirs(ws, exist_ok=True)
+    bd = os.path.join(ws, "kw.bd")
+    if not os.path.exists(bd):
+        with open(bd, "w") as f:
+            f.write(BD_KEYWRAP)
+        with open(os.path.join(ws, "kek.txt"), "w") as f:
+            f.write("AB" * 32)
+    cfg = BootImageV21.parse_sb21_config(bd)
+    kdir = os.path.join(GOLDEN, "keys")
+    cfg["mainCertPrivateKeyFile"] = os.path.join(kdir, "k0_cert0_2048.pem")
+    sb = BootImageV21.load_from_config(
+        config=cfg,
+        key_file_path=os.path.join(ws, "kek.txt"),
+        signing_certificate_file_paths=[os.path.join(kdir, "root_k0_signed_cert0_noca.der.cert")],
+        root_key_certificate_paths=[os.path.join(kdir, f"root_k{i}_signed_cert0_noca.der.cert") for i in range(4)],
+        rkth_out_path=os.path.join(ws, "hash.bin"),
+        search_paths=[ws],
+    )
+    blob = None
+    for sec in sb.boot_sections:
+        for cmd in sec:
+            if isinstance(cmd, CmdLoad) and cmd.address == 0x0800_0000:
+                blob = bytes(cmd.data)
+    if blob is None:
+        raise RuntimeError("no wrapped key blob in the built image")
+    return {"kind": "sb2", "slots": {"dek": sb.dek.hex(), "mac": sb.mac.hex(), "nonce": bytes(sb.header.nonce).hex(), "wrapped_keyblob": blob.hex()}, "explicit": [], "pair": ["dek", "nonce"]}
+
+
 def op_sb2_config(o: dict) -> dict:
     """SB2.1 built the way `nxpimage sb21 export` does (BD file -> parse_sb21_config -> load_from_config)."""
     from spsdk.sbfile.sb2.images import BootImageV21
@@ -421,9 +484,13 @@ def op_bee_config(o: dict) -> dict:
         f.write(bytes(range(256)) * 8)
     sel = o.get("engines", "engine0")
     eng = []
+    empty_key = bool(o.get("empty_key"))  # an empty user key asks SPSDK to choose the SW key as well
     for i in range(2 if sel == "both" else 1):
-        eng.append({"bee_cfg": {"user_key": _explicit(o.get("x", 0) + 500, 16).hex(), "protected_region": [{"start_address": 0x6000_1000 + i * 0x1000, "length": 0x400, "protected_level": 0}]}})
+        eng.append({"bee_cfg": {"user_key": "" if empty_key else _explicit(o.get("x", 0) + 500, 16).hex(), "protected_region": [{"start_address": 0x6000_1000 + i * 0x1000, "length": 0x400, "protected_level": 0}]}})
     cfg = {"input_binary": "app.bin", "engine_selection": sel, "base_address": 0x6000_1000, "bee_engine": eng}
+    if empty_key and o.get("reuse_config"):
+        # the caller builds several images from one configuration dictionary
+        cfg = SHARED.setdefault(("bee_cfg", sel), cfg)
     bee = BeeNxp.load_from_config(cfg, search_paths=[td])
     slots = {}
     pairs = []
@@ -436,7 +503,7 @@ def op_bee_config(o: dict) -> dict:
         slots[f"kib_iv{i}"] = h._kib.kib_iv.hex()
     if o.get("export"):
         bee.export_image()
-    return {"kind": "bee_config", "slots": slots, "explicit": [k for k in slots if k.startswith("user_key")]}
+    return {"kind": "bee_config", "slots": slots, "explicit": [] if empty_key else [k for k in slots if k.startswith("user_key")]}
 
 
 WORKDIR = tempfile.gettempdir()
@@ -445,7 +512,7 @@ FORK_TAG = ""
 SHARED: dict = {}
 ENT = None
 
-OPS = {"sb2": op_sb2, "sb2_config": op_sb2_config, "fork": op_fork, "mbi_class": op_mbi_class, "mbi_config": op_mbi_config, "otfad": op_otfad, "iee": op_iee, "bee": op_bee, "hab": op_hab, "hab_rt": op_hab_rt, "bee_config": op_bee_config, "iee_config": op_iee_config}
+OPS = {"sb2": op_sb2, "sb2_config": op_sb2_config, "fork": op_fork, "mbi_class": op_mbi_class, "mbi_config": op_mbi_config, "otfad": op_otfad, "iee": op_iee, "bee": op_bee, "hab": op_hab, "hab_rt": op_hab_rt, "bee_config": op_bee_config, "iee_config": op_iee_config, "sb2_keywrap": op_sb2_keywrap}
 
 
 def run_epoch(spec: dict) -> dict:
